@@ -63,6 +63,10 @@ func main() {
 			}
 			text := string(data)
 			for _, r := range g.Replace {
+				if strings.HasPrefix(r[0], "*") {
+					text = strings.ReplaceAll(text, r[0][1:], r[1])
+					continue
+				}
 				text = strings.Replace(text, r[0], r[1], 1)
 			}
 			overlay["/repo/"+g.Dst] = []byte(text)
